@@ -24,13 +24,14 @@
 (***************************************************************************)
 EXTENDS DxTypes, DxCmp
 
-BoundOpts == {"absent", "empty", "P", "dd", "Pdd", "T", "Tdd"}
-\* absent | bound() | bound(P) | bound(..) | bound(P, ..) | bound(Ty) | bound(Ty, ..)
+BoundOpts == {"absent", "empty", "P", "dd", "Pdd", "T", "Tdd", "ddP", "ddT"}
+\* absent | bound() | bound(P) | bound(..) | bound(P, ..) | bound(Ty) | bound(Ty, ..) | bound(.., P) | bound(.., Ty)
+\* doc: "resolution continues past a level only if it is absent or CONTAINS `..`": the position of `..` is irrelevant
 
-Cont(b) == b \in {"absent", "dd", "Pdd", "Tdd"}          \* resolution continues past this level
+Cont(b) == b \in {"absent", "dd", "Pdd", "Tdd", "ddP", "ddT"}          \* resolution continues past this level
 Contrib(b, id) ==
-    (IF b \in {"P", "Pdd"} THEN {"pred@" \o id} ELSE {}) \cup
-    (IF b \in {"T", "Tdd"} THEN {"ty@" \o id} ELSE {})
+    (IF b \in {"P", "Pdd", "ddP"} THEN {"pred@" \o id} ELSE {}) \cup
+    (IF b \in {"T", "Tdd", "ddT"} THEN {"ty@" \o id} ELSE {})
 
 (***************************************************************************)
 (* Which helper attributes carry bound(...) for a trait, most specific     *)
